@@ -64,3 +64,15 @@ Theorem C08_repeat_only_while_held : forall l,
   active_sequences (process_sequences l) = [].
 Proof. exact repeat_only_while_held. Qed.
 Print Assumptions C08_repeat_only_while_held.
+
+(* a whole macro of press / release / tap / delay steps, from a ready state with room for its keys: the macro-held keys after
+   every millisecond are exactly what it spells (`play`: one step per millisecond, a tap takes two, a delay of d takes max 1 d
+   during which nothing changes), nothing is left to play, and what is held at the end is what the spelling leaves held *)
+From KV Require Import Proofs.C08Play.
+Theorem C08_macro_plays_exactly_its_list : forall evs l s,
+  ready s -> ss_remaining s = evs -> Forall simple_ev evs ->
+  (length (states l) + length evs <= STATES_CAP)%nat ->
+  exists l' s', seq_run (length (play evs (fake_keys l))) l s = (play evs (fake_keys l), (l', s')) /\
+                ss_remaining s' = [] /\ fake_keys l' = last (play evs (fake_keys l)) (fake_keys l).
+Proof. exact macro_ends_as_spelled. Qed.
+Print Assumptions C08_macro_plays_exactly_its_list.
